@@ -19,3 +19,35 @@ Theorem c10_token_count_linear :
   lex_fuel is_letter keyword K fuel s l col o = Some (ts, fin) -> (length ts <= length s)%nat.
 Proof. exact go_lex_token_count. Qed.
 Print Assumptions c10_token_count_linear.
+
+(* ---- parser (coq/Parse: Gallina transliteration of the whole of parser.go, tied to /repo by the
+   correspondence leg of checks/c19.py and the regenerated tables of Parse/ParseInst.v) *)
+From Coq Require Import String.
+Require Import Naga.Parse.Ast Naga.Parse.ParserModel Naga.Parse.ParserProofs.
+
+(* Parse() terminates on EVERY token list: the fuel the model hands to its loops and recursions
+   (length of the token list + 1) is never exhausted *)
+Theorem c10_parse_never_out_of_fuel : forall ts, parse ts <> OutOfFuel.
+Proof. exact parse_never_out_of_fuel. Qed.
+Print Assumptions c10_parse_never_out_of_fuel.
+
+(* ... and always returns a module together with its list of errors (no error escapes the recovery loop) *)
+Theorem c10_parse_total : forall ts, exists ds es, parse ts = Parsed ds es.
+Proof. exact parse_total. Qed.
+Print Assumptions c10_parse_total.
+
+(* progress, on every state with at most `total` remaining tokens: a sub-parser that succeeds has consumed at
+   least one token; one that fails reports the index of the token that is current at the failure (never
+   before its start) and has not moved backwards.  (The loops of the parser rest on this: see the loop
+   lemmas of Parse/ParserProofs.v for which loop uses which consumption argument.) *)
+Theorem c10_parse_progress :
+  progresses expression /\ progresses typeSpec /\ progresses statement /\ progresses block /\ progresses declaration.
+Proof. exact parse_progress. Qed.
+Print Assumptions c10_parse_progress.
+
+(* non-vacuity: an unterminated function body: one error, at the EOF token (index 5) *)
+Example c10_parse_example :
+  parse [mktoken TkFn "fn"; mktoken TkIdent "f"; mktoken TkLeftParen "("; mktoken TkRightParen ")";
+         mktoken TkLeftBrace "{"; mktoken TkEOF ""]%string
+  = Parsed [] [PErr (EExpected TkRightBrace) 5].
+Proof. vm_compute. reflexivity. Qed.
